@@ -765,6 +765,8 @@ public:
 	}
 	bool insert(long pos, const T &val)
 	{
+		/* value may be element of this array */
+		const T tmp(val);
 		long len = this->length();
 		if (pos < 0) {
 			if ((pos += len) < 0) {
@@ -779,7 +781,7 @@ public:
 		}
 		void *d = this->_ref.instance()->insert(pos);
 		if (d) {
-			new (d) T(val);
+			new (d) T(tmp);
 			return true;
 		}
 		return false;
